@@ -225,7 +225,7 @@ func cmdEnum(args []string) {
 				}
 				for pi, pre := range d.Pres {
 					for early := 0; early < 2; early++ {
-						if early == 1 && d.Cfg.HelpOpt() == 0 {
+						if early == 1 && d.Cfg.HelpOpt() == 0 && !d.Cfg.OptsLate {
 							continue
 						}
 						c := gh.Case{Ev: "case", Def: d.ID, ID: *idBase + 45000000 + 16*id + 2*pi + early, Argv: argv, Disp: d.Disp, HasPre: true, Pre: pre, PreEarly: early == 1}
